@@ -38,6 +38,85 @@ pub(crate) fn get_occurrence_length(
     (max_length as i32, disp)
 }
 
+/// Walks the tokens of an LZ10/LZ11 stream the way the decompressor does and reports
+/// whether every back-reference stays inside the data produced so far. Truncated input is
+/// left for the decompressor to report.
+pub(crate) fn back_references_in_bounds(bytes: &[u8]) -> bool {
+    if bytes.len() < 4 {
+        return true;
+    }
+    let lz11 = match bytes[0] {
+        0x10 => false,
+        0x11 => true,
+        _ => return true,
+    };
+    let mut length = bytes[1] as usize | (bytes[2] as usize) << 8 | (bytes[3] as usize) << 16;
+    let mut position = 4;
+    if lz11 && length == 0 {
+        if bytes.len() < 8 {
+            return true;
+        }
+        length = u32::from_le_bytes([bytes[4], bytes[5], bytes[6], bytes[7]]) as usize;
+        position = 8;
+    }
+    let mut produced: usize = 0;
+    while produced < length {
+        let flags = match bytes.get(position) {
+            Some(value) => *value,
+            None => return true,
+        };
+        position += 1;
+        for bit in (0..8).rev() {
+            if produced >= length {
+                break;
+            }
+            if (flags >> bit) & 1 == 0 {
+                if position >= bytes.len() {
+                    return true;
+                }
+                position += 1;
+                produced += 1;
+                continue;
+            }
+            if position + 2 > bytes.len() {
+                return true;
+            }
+            let first = bytes[position] as usize;
+            let second = bytes[position + 1] as usize;
+            let (copy_length, disp) = if !lz11 {
+                position += 2;
+                ((first >> 4) + 3, ((first & 0xF) << 8) | second)
+            } else if first >> 4 == 0 {
+                if position + 3 > bytes.len() {
+                    return true;
+                }
+                let third = bytes[position + 2] as usize;
+                position += 3;
+                ((((first & 0xF) << 4) | (second >> 4)) + 0x11, ((second & 0xF) << 8) | third)
+            } else if first >> 4 == 1 {
+                if position + 4 > bytes.len() {
+                    return true;
+                }
+                let third = bytes[position + 2] as usize;
+                let fourth = bytes[position + 3] as usize;
+                position += 4;
+                (
+                    (((first & 0xF) << 12) | (second << 4) | (third >> 4)) + 0x111,
+                    ((third & 0xF) << 8) | fourth,
+                )
+            } else {
+                position += 2;
+                ((first >> 4) + 1, ((first & 0xF) << 8) | second)
+            };
+            if disp >= produced {
+                return false;
+            }
+            produced += copy_length;
+        }
+    }
+    true
+}
+
 // Based on https://github.com/VelouriasMoon/FE3D/blob/main/FE3D/LZ13.cs
 fn calculate_lz13_header(bytes: &[u8]) -> Result<usize> {
     let mut max_lead = Wrapping(0i32);
@@ -181,7 +260,9 @@ impl LZ13CompressionFormat {
             Ok(result)
         } else {
             let truncated_input = if bytes[0] == 0x13 { &bytes[4..] } else { bytes };
-
+            if !back_references_in_bounds(truncated_input) {
+                return Err(CompressionError::InvalidInput("LZ13".to_string()));
+            }
             match decompress_arr(truncated_input) {
                 Ok(decompressed_data) => Ok(decompressed_data),
                 Err(_) => Err(CompressionError::InvalidInput("LZ13".to_string())),
